@@ -82,28 +82,33 @@ impl MuxStream {
     #[tracing::instrument(skip_all, level = "trace", fields(flow_id = %format_args!("{:08x}", self.flow_id)))]
     #[inline]
     pub fn poll_for_push(&mut self, cx: &mut Context<'_>) -> Poll<usize> {
-        let Some(next) = ready!(self.rx_frame_rx.poll_recv(cx)) else {
-            trace!("stream has been closed");
-            // See `tokio::sync::mpsc`#clean-shutdown
-            self.rx_frame_rx.close();
-            // There should be no code path sending more frames after an EOF
-            // If this assertion fails, some code path is sending frames after EOF
-            // and thus causing loss of data.
-            // However, this is not an inconsistent state so we should not
-            // panic a production setup.
-            debug_assert!(self.rx_frame_rx.try_recv().is_err());
-            return Poll::Ready(0);
-        };
-        // Putting no data into the buffer is EOF, and other code should
-        // already ensure that such frames are filtered out.
-        debug_assert!(!next.is_empty());
         assert!(
             self.buf.is_empty(),
             "`poll_fill_buf_inner` should not be called unless the buffer is empty"
         );
-        self.buf = next;
-        self.increment_psh_recvd_since();
-        Poll::Ready(self.buf.len())
+        loop {
+            let Some(next) = ready!(self.rx_frame_rx.poll_recv(cx)) else {
+                trace!("stream has been closed");
+                // See `tokio::sync::mpsc`#clean-shutdown
+                self.rx_frame_rx.close();
+                // There should be no code path sending more frames after an EOF
+                // If this assertion fails, some code path is sending frames after EOF
+                // and thus causing loss of data.
+                // However, this is not an inconsistent state so we should not
+                // panic a production setup.
+                debug_assert!(self.rx_frame_rx.try_recv().is_err());
+                return Poll::Ready(0);
+            };
+            // The frame occupied a slot of our receive window whatever its size
+            self.increment_psh_recvd_since();
+            if next.is_empty() {
+                // Putting no data into the buffer would read as EOF: an empty
+                // `Push` carries nothing, so skip it and look at the next frame.
+                continue;
+            }
+            self.buf = next;
+            return Poll::Ready(self.buf.len());
+        }
     }
 
     /// Get a reference to the internal buffer.
@@ -253,6 +258,18 @@ mod tokio_io_impls {
         }
     }
 
+    impl MuxStream {
+        /// `BrokenPipe` once writes are disallowed (shut down, reset or connection closed).
+        #[inline]
+        fn check_writable(&self) -> io::Result<()> {
+            if self.finish_sent.load(crate::loom::Ordering::Relaxed) {
+                Err(BrokenPipe.into())
+            } else {
+                Ok(())
+            }
+        }
+    }
+
     impl AsyncWrite for MuxStream {
         /// Write data to the stream. Each invocation of this method will send a
         /// separate frame in a new [`Message`](crate::ws::Message), so it may be
@@ -264,6 +281,11 @@ mod tokio_io_impls {
             cx: &mut Context<'_>,
             buf: &[u8],
         ) -> Poll<io::Result<usize>> {
+            if buf.is_empty() {
+                // Nothing to transmit: do not spend a unit of the peer's window on an empty
+                // `Push` (which older peers would also mistake for EOF).
+                return Poll::Ready(self.check_writable().map(|()| 0));
+            }
             ready!(self.as_ref().poll_write_push(cx, buf)).ok_or(BrokenPipe)?;
             trace!("sent a frame");
             Poll::Ready(Ok(buf.len()))
@@ -297,6 +319,9 @@ mod tokio_io_impls {
             for buf in bufs {
                 total_len += buf.len();
                 slices.push(CowBytes::Temporary(buf));
+            }
+            if total_len == 0 {
+                return Poll::Ready(self.check_writable().map(|()| 0));
             }
             let Some(()) = ready!(self.poll_obtain_write_permission(cx)) else {
                 return Poll::Ready(Err(io::ErrorKind::BrokenPipe.into()));
